@@ -67,6 +67,7 @@ class Env:
         self.tracked = [usim.Tracked(z) for z in sc.get('tracked', [])]
         self.locks = [usim.Lock() for _ in range(sc.get('nlocks', 0))]
         self.queues = [usim.Queue() for _ in range(sc.get('nqueues', 0))]
+        self.chans = [usim.Channel() for _ in range(sc.get('nchans', 0))]
         self.scopes = {}
         self.tasks = {}
         self.task_names = {}
@@ -112,7 +113,8 @@ class Env:
         if isinstance(e, usim.TaskClosed):
             return [12]
         if isinstance(e, usim.StreamClosed):
-            q = [i for i, x in enumerate(self.queues) if x is e.stream]
+            q = [i for i, x in enumerate(self.queues) if x is e.stream] + \
+                [1000 + i for i, x in enumerate(self.chans) if x is e.stream]
             return [14, q[0] if q else -1]
         if isinstance(e, ScopeClosed):
             return [16]
@@ -438,6 +440,77 @@ class Env:
                 self.emit([7, s[1]])
             else:
                 self.emit([6, s[1], int(t.status.value)])
+        elif op in ('for_queue', 'for_chan', 'interval', 'delay_iter'):
+            # NOTE: the iterable is never bound to a name: an async generator that is still referenced when its
+            # consumer is closed is not finalised by CPython 3.12 (known finding D16); the scenarios stay clear of that
+            _, x, n, body = s
+            i = 0
+            self.probe('iter_start', op, x, self.now(), actor)
+            if op == 'for_queue':
+                async for v in self.queues[x]:
+                    self.emit([4, x, v])
+                    self.probe('got', x, v, actor, self.now())
+                    await self.block(body, actor)
+                    i += 1
+                    if n and i >= n:
+                        break
+            elif op == 'for_chan':
+                async for v in self.chans[x]:
+                    self.emit([4, 1000 + x, v])
+                    self.probe('chan_got', x, v, actor, self.now())
+                    await self.block(body, actor)
+                    i += 1
+                    if n and i >= n:
+                        break
+            elif op == 'interval':
+                async for v in usim.interval(tval(x)):
+                    self.emit([20, tcode(v)])
+                    self.probe('tick', op, x, v, self.now(), actor)
+                    await self.block(body, actor)
+                    i += 1
+                    if n and i >= n:
+                        break
+            else:
+                async for v in usim.delay(tval(x)):
+                    self.emit([21, tcode(v)])
+                    self.probe('tick', op, x, v, self.now(), actor)
+                    await self.block(body, actor)
+                    i += 1
+                    if n and i >= n:
+                        break
+            self.probe('iter_end', op, x, self.now(), actor)
+        elif op == 'chan_put':
+            self.probe('chan_put', s[1], s[2], self.now(), actor, bool(self.chans[s[1]].closed))
+            await self.chans[s[1]].put(s[2])
+        elif op == 'chan_get':
+            self.probe('chan_get_start', s[1], actor, self.now())
+            v = await self.chans[s[1]]
+            self.probe('chan_got', s[1], v, actor, self.now())
+            self.emit([4, 1000 + s[1], v])
+        elif op == 'chan_close':
+            await self.chans[s[1]].close()
+        elif op == 'collect':
+            _, scname, acts = s
+            self.probe('collect_start', scname, [a[0] for a in acts], self.now(), actor)
+            try:
+                res = await usim.collect(*[self.payload(tn, b) for tn, b in acts])
+            except BaseException as e:
+                self.probe('collect_exc', scname, self.now(), e)
+                raise
+            self.probe('collect_end', scname, list(res), self.now())
+            self.emit([9] + [v if isinstance(v, int) else -1 for v in res])
+        elif op == 'first':
+            _, scname, k, n, acts, body = s
+            i = 0
+            self.probe('first_start', scname, k, [a[0] for a in acts], self.now(), actor)
+            async for w in usim.first(*[self.payload(tn, b) for tn, b in acts], count=k):
+                self.emit([8, w if isinstance(w, int) else -1])
+                self.probe('first_item', scname, w, self.now())
+                await self.block(body, actor)
+                i += 1
+                if n and i >= n:
+                    break
+            self.probe('first_end', scname, self.now())
         else:
             raise ValueError('unknown statement %r' % (s,))
 
@@ -653,15 +726,36 @@ def coq_stmt(s):
         return '(SCloseQ %d)' % s[1]
     if op == 'status':
         return '(SStatus %d)' % s[1]
+    if op == 'for_queue':
+        return '(SForQueue %d %d %s)' % (s[1], s[2], coq_block(s[3]))
+    if op == 'for_chan':
+        return '(SForChan %d %d %s)' % (s[1], s[2], coq_block(s[3]))
+    if op == 'interval':
+        return '(SInterval %s %d %s)' % (cx(s[1]), s[2], coq_block(s[3]))
+    if op == 'delay_iter':
+        return '(SDelayIter %s %d %s)' % (cx(s[1]), s[2], coq_block(s[3]))
+    if op == 'chan_put':
+        return '(SChanPut %d %s)' % (s[1], cz(s[2]))
+    if op == 'chan_get':
+        return '(SChanGet %d)' % s[1]
+    if op == 'chan_close':
+        return '(SChanClose %d)' % s[1]
+    if op == 'collect':
+        return '(SCollect %d %s)' % (s[1], clist(['(%d, %s)' % (tn, coq_block(b)) for tn, b in s[2]]))
+    if op == 'first':
+        k = 'None' if s[2] is None else '(Some %d)' % s[2]
+        return '(SFirst %d %s %d %s %s)' % (s[1], k, s[3], clist(['(%d, %s)' % (tn, coq_block(b)) for tn, b in s[4]]),
+                                            coq_block(s[5]))
     raise ValueError(s)
 
 
 def coq_scenario(sc):
     till = 'None' if sc.get('till') is None else '(Some %s)' % cx(sc['till'])
     return ('{| sc_start := %s; sc_till := %s; sc_roots := %s; sc_nflags := %d; sc_tracked := %s; '
-            'sc_nlocks := %d; sc_nqueues := %d |}') % (
+            'sc_nlocks := %d; sc_nqueues := %d; sc_nchans := %d |}') % (
         cx(sc['start']), till, clist([coq_block(r) for r in sc['roots']]), sc.get('nflags', 0),
-        clist([cz(z) for z in sc.get('tracked', [])]), sc.get('nlocks', 0), sc.get('nqueues', 0))
+        clist([cz(z) for z in sc.get('tracked', [])]), sc.get('nlocks', 0), sc.get('nqueues', 0),
+        sc.get('nchans', 0))
 
 
 def coq_trace(tr):
